@@ -254,10 +254,10 @@ def clause_c(facts, rep, fs):
                 if t and t.get('cond') is not None and len(B['succs']) == 2 and k + 1 < len(path):
                     nxt = path[k + 1]
                     if B['succs'][0] == nxt and B['succs'][1] != nxt:
-                        for c_at, s_at in _Matoms._atoms(t['cond'], True):
+                        for c_at, s_at in _Matoms._atoms(t['cond'], True, 0, b):
                             st |= edge_facts(c_at, s_at)
                     elif B['succs'][1] == nxt and B['succs'][0] != nxt:
-                        for c_at, s_at in _Matoms._atoms(t['cond'], False):
+                        for c_at, s_at in _Matoms._atoms(t['cond'], False, 0, b):
                             st |= edge_facts(c_at, s_at)
             if ret is None or cval(ret[1].get('e')) != 1:
                 continue
